@@ -113,3 +113,18 @@ package rtpfb
 //@   loop 1 invariant send_order: forall a int, b int :: 0 <= a && a < b && b < len(res) ==> res[a].SequenceNumber < res[b].SequenceNumber
 //@   loop 1 invariant complete: forall c uint64 :: old(h.nextReport) <= c && c < i && has(h.packets, c) ==> exists j int :: 0 <= j && j < len(res) && res[j].SequenceNumber == c
 //@   loop 1 decreases h.highestAcked + 1 - i
+//@
+//@ # ---- interceptor glue (property C01): both RTP writers record the packet once and forward it once, unchanged
+//@ func (*Interceptor).bindTWCCStream$1
+//@   requires in: header != nil
+//@   modifies *
+//@   ensures forwarded_once: calls("writer.Write") == 1 && callarg("writer.Write", 0) == header && callarg("writer.Write", 1) == payload && callarg("writer.Write", 2) == attributes
+//@   ensures result_passed: result0 == callres("writer.Write", 0) && result1 == callres("writer.Write", 1)
+//@   ensures recorded_once: calls("i.history.addOutgoing") == 1 && callarg("i.history.addOutgoing", 0) == old(header.SSRC) && callarg("i.history.addOutgoing", 1) == old(header.SequenceNumber)
+//@
+//@ func (*Interceptor).bindCCFBStream$1
+//@   requires in: header != nil
+//@   modifies *
+//@   ensures forwarded_once: calls("writer.Write") == 1 && callarg("writer.Write", 0) == header && callarg("writer.Write", 1) == payload && callarg("writer.Write", 2) == attributes
+//@   ensures result_passed: result0 == callres("writer.Write", 0) && result1 == callres("writer.Write", 1)
+//@   ensures recorded_once: calls("i.history.addOutgoing") == 1 && callarg("i.history.addOutgoing", 0) == old(header.SSRC) && callarg("i.history.addOutgoing", 1) == old(header.SequenceNumber)
